@@ -480,8 +480,13 @@ func c13shape(c *Ctx) {
 		}
 		for _, b := range fn.Blocks {
 			for _, in := range b.Instrs {
-				if bo, ok := in.(*ssa.BinOp); ok && bo.Op == token.EQL && strings.Contains(an.Path(bo), `"BE"`) {
-					facts[bo] = an.False
+				if bo, ok := in.(*ssa.BinOp); ok && (bo.Op == token.EQL || bo.Op == token.NEQ) && strings.Contains(an.Path(bo), `"BE"`) {
+					// the QoS is not BE
+					if bo.Op == token.EQL {
+						facts[bo] = an.False
+					} else {
+						facts[bo] = an.True
+					}
 				}
 			}
 		}
@@ -495,31 +500,63 @@ func c13shape(c *Ctx) {
 		r.Check(len(facts) == 2 && !bad, "PATH", fkey(fn)+"/batch-needs-BE", c.Pos(fn.Pos()), "batch resources without QoS BE are rejected", "a pod with non-zero batch CPU and a QoS other than BE can pass")
 	}
 	if fn := c.Fn(podValidPkg, "", "validateResources"); fn != nil {
+		// scenarios: QoS LSR (resp. LSE), a non-zero CPU request that is not a whole number: no return without appending an error
 		var cmp *ssa.BinOp
+		qosCmp := map[string][]*ssa.BinOp{}
+		var zero []ssa.Value
 		for _, b := range fn.Blocks {
 			for _, in := range b.Instrs {
-				if bo, ok := in.(*ssa.BinOp); ok && bo.Op == token.NEQ {
-					p := an.Path(bo)
+				switch x := in.(type) {
+				case *ssa.BinOp:
+					if x.Op != token.EQL && x.Op != token.NEQ {
+						continue
+					}
+					p := an.Path(x)
 					if strings.Contains(p, "Value(") && strings.Contains(p, "* 1000") && strings.Contains(p, "MilliValue(") {
-						cmp = bo
+						cmp = x
+					}
+					for _, q := range []string{"LSR", "LSE"} {
+						if strings.Contains(p, `"`+q+`"`) {
+							qosCmp[q] = append(qosCmp[q], x)
+						}
+					}
+				case *ssa.Call:
+					if an.ShortCallee(&x.Call) == "IsZero" {
+						zero = append(zero, x)
 					}
 				}
 			}
 		}
-		okQ := false
-		if cmp != nil {
-			var lsr, lse bool
-			for _, b := range fn.Blocks {
-				for _, in := range b.Instrs {
-					if bo, ok := in.(*ssa.BinOp); ok && bo.Op == token.EQL {
-						p := an.Path(bo)
-						lsr = lsr || strings.Contains(p, `"LSR"`)
-						lse = lse || strings.Contains(p, `"LSE"`)
-					}
+		ok := cmp != nil && len(qosCmp["LSR"]) > 0 && len(qosCmp["LSE"]) > 0
+		set := func(f an.Facts, bo *ssa.BinOp, equal bool) {
+			if (bo.Op == token.EQL) == equal {
+				f[bo] = an.True
+			} else {
+				f[bo] = an.False
+			}
+		}
+		for _, q := range []string{"LSR", "LSE"} {
+			if !ok {
+				break
+			}
+			f := an.Facts{}
+			for qq, list := range qosCmp {
+				for _, bo := range list {
+					set(f, bo, qq == q)
 				}
 			}
-			okQ = lsr && lse
+			for _, z := range zero {
+				f[z] = an.False
+			}
+			set(f, cmp, false) // Value()*1000 differs from MilliValue()
+			reach := an.Explore(fn, nil, f, func(in ssa.Instruction) bool {
+				call, isC := in.(*ssa.Call)
+				return isC && an.IsBuiltinCall(call, "append")
+			})
+			if len(reach.Returns()) > 0 {
+				ok = false
+			}
 		}
-		r.Check(cmp != nil && okQ, "PATH", fkey(fn)+"/whole-cpus", c.Pos(fn.Pos()), "LSR/LSE pods must request whole CPUs", "the whole-CPU test (Value()*1000 != MilliValue()) for LSR and LSE pods is missing")
+		r.Check(ok, "PATH", fkey(fn)+"/whole-cpus", c.Pos(fn.Pos()), "LSR/LSE pods must request whole CPUs", "for an LSR or LSE pod whose CPU request is not a whole number a return is reachable without an error being appended (or the test Value()*1000 != MilliValue() is missing)")
 	}
 }
